@@ -226,54 +226,64 @@ def check_stack_scan(P, ctx):
 
 
 def check_first_mark(P, ctx):
+    """GC_Mark_Item: (a) an entry is traced exactly when it is marked for the first time; (b) the candidate filter rejects a word
+    only if it is misaligned or outside [minptr, maxptr].  Both are decided as truth tables by walking the function with the
+    analyser's evaluator (the spelling of the tests — nested, negated, split, `continue` — does not matter)."""
     rule = 'C01.first-mark-recurses'
     fn = P.fn('GC_Mark_Item')
     g = P.cfg(fn)
     ctx.fn(fn)
+    N = util.Norm(P, fn, expand_locals=True, inline=False)
     marks = [n for n in g.live() if n['kind'] == 'stmt' and ir.top_nocast(n['expr'])[0] == 'assign' and util.field_name(ir.top_nocast(n['expr'])[2]) == 'marked'
              and util.const_int(ir.top_nocast(n['expr'])[3]) == 1]
     rec = [(n, c) for (n, c) in g.nodes_calling('GC_Recurse')]
-    ok = len(marks) == 1 and len(rec) == 1
+    hashn = [n for (n, c) in g.nodes_calling('GC_Hash')]
+    ok = len(marks) == 1 and len(rec) == 1 and len(hashn) >= 1
     detail = None
     if ok:
         mn = marks[0]
         rn, rc = rec[0]
-        ment = ir.nocast(ir.top_nocast(mn['expr'])[2])[1]       # entries[i]
-        rent = ir.nocast(rc[2][1])
-        same_entry = rent[0] in ('dot', 'arrow') and rent[2] == 'ptr' and ir.nocast(rent[1]) == ir.nocast(ment)
-        # recursion happens after the store, exactly once, only on the first marking
-        unm = [n for n in g.live() if n['kind'] == 'cond' and util.field_name(ir.top_nocast(n['expr'])) == 'marked']
-        eqp = [n for n in g.live() if n['kind'] == 'cond' and ir.canon(n['expr'])[0] == 'bin' and ir.canon(n['expr'])[1] == '==' and
-               ('param', 1) in (ir.canon(n['expr'])[2], ir.canon(n['expr'])[3]) and field_atom(n['expr'], 'ptr') is not None]
-        ok = same_entry and len(unm) == 1 and len(eqp) == 1 and \
-            g.must_pass(rn['id'], [mn['id']]) and g.must_pass(mn['id'], through_edges=[(unm[0]['id'], False)]) and \
-            g.must_pass(mn['id'], through_edges=[(eqp[0]['id'], True)]) and \
-            g.must_pass(g.exit, [rn['id']], start=mn['id']) and rn['id'] not in g.reach_from(rn['succ'][0][0])
+        ment = ir.top_nocast(N.canon(ir.top_nocast(mn['expr'])[2]))          # entries[i].marked
+        rent = ir.top_nocast(N.canon(rc[2][1]))                              # entries[i].ptr
+        same_entry = ment[0] in ('dot', 'arrow') and rent[0] in ('dot', 'arrow') and rent[2] == 'ptr' and ment[1] == rent[1]
+        ent = ment[1] if same_entry else None
         detail = ['mark: %s' % g.describe(mn), 'trace: %s' % g.describe(rn)]
+        table = {}
+        if same_entry:
+            for match in (True, False):
+                for marked in (0, 1):
+                    env = {('param', 1): 40, ('arrow', ('param', 0), 'minptr'): 8, ('arrow', ('param', 0), 'maxptr'): 800,
+                           ('arrow', ('param', 0), 'nslots'): 11,
+                           ('dot', ent, 'hash'): 4, ('dot', ent, 'ptr'): 40 if match else 48, ('dot', ent, 'marked'): marked,
+                           '__call__': lambda e, env_: 3 if ir.callee_name(e) == 'GC_Hash' else 9}
+                    why, node, env2 = util.walk_eval(g, N, env, stop=[rn['id']], max_steps=80, unsigned=True)
+                    traced = (why == 'stop' and node['id'] == rn['id'])
+                    table[(match, marked)] = (traced, env2.get(('dot', ent, 'marked')))
+            want = {(True, 0): (True, 1), (True, 1): (False, 1), (False, 0): (False, 0), (False, 1): (False, 1)}
+            ok = table == want and rn['id'] not in g.reach_from(rn['succ'][0][0]) if rn['succ'] else table == want
+            detail.append('(pointer matches, already marked) -> (traced, mark afterwards): %s' % sorted(table.items()))
+        else:
+            ok = False
     ctx.check(ok, rule, 'GC_Mark_Item', site(fn), 'an entry is traced exactly when it is marked for the first time: the store of the mark precedes one call of the tracer on the same entry, '
               'under (pointer matches and not yet marked) — so tracing terminates on cycles and shared objects, and no marked object is left untraced', detail)
     # candidate filter: only misaligned / out-of-range words are rejected
-    rets = [n for n in g.live() if n['kind'] == 'ret']
-    pv = [n for n in g.live() if n.get('decl') and n['decl']['init'] is not None and ir.nocast(n['decl']['init']) == ('param', fn['params'][1][0], 1)]
-    ok = len(pv) == 1
+    ok = bool(hashn)
+    bad = None
     if ok:
-        v = ('local', pv[0]['decl']['name'])
-        want = {repr(ir.canon(('bin', '!=', ('bin', '%', v + (pv[0]['decl']['id'],), ('sizeof', ('type', 'void *'))), ('int', 0)))): 'align',
-                }
-        filt = [n for n in g.live() if n['kind'] == 'cond' and util.mentions(ir.canon(n['expr']), lambda y: y == v)]
-        kinds = set()
-        for n in filt:
-            c = ir.canon(n['expr'])
-            if c[0] == 'bin' and c[1] == '!=' and c[3][0] == 'bin' and c[3][1] == '%' or (c[0] == 'bin' and c[1] == '!=' and c[2][0] == 'bin' and c[2][1] == '%'):
-                kinds.add('align')
-            elif c[0] == 'bin' and c[1] == '<' and c[2] == v and util.field_name(c[3]) == 'minptr':
-                kinds.add('below-min')
-            elif c[0] == 'bin' and c[1] == '<' and c[3] == v and util.field_name(c[2]) == 'maxptr':
-                kinds.add('above-max')
-            else:
-                kinds.add('other:' + ir.fmt(c))
-        ok = kinds == {'align', 'below-min', 'above-max'}
-    ctx.check(ok, rule, 'GC_Mark_Item:filter', site(fn), 'a candidate word is rejected early only if misaligned, strictly below the smallest or strictly above the largest registered address')
+        for pv in (8, 16, 24, 20, 17, 64, 72, 0):
+            env = {('param', 1): pv, ('arrow', ('param', 0), 'minptr'): 16, ('arrow', ('param', 0), 'maxptr'): 64, ('arrow', ('param', 0), 'nslots'): 11}
+            why, node, env2 = util.walk_eval(g, N, env, stop=[n['id'] for n in hashn], max_steps=40, unsigned=True)
+            rejected = (why == 'ret')
+            if why not in ('ret', 'stop'):
+                bad = 'word %d: the filter is not evaluable (%s at %s)' % (pv, why, g.describe(node))
+                break
+            want = (pv % 8 != 0) or pv < 16 or pv > 64
+            if rejected != want:
+                bad = 'with registered addresses in [16, 64], the word %d is %s' % (pv, 'rejected although it may be a registered address' if rejected else 'looked up although it cannot be one')
+                break
+        ok = bad is None
+    ctx.check(ok, rule, 'GC_Mark_Item:filter', site(fn), 'a candidate word is rejected early only if misaligned, strictly below the smallest or strictly above the largest registered address',
+              [bad] if bad else None)
     ctx.floor(rule, 2)
 
 
